@@ -476,9 +476,18 @@ def scan_forbidden(files):
             if True:
                 p = os.path.join(COQ, rel)
                 txt = re.sub(r'\(\*.*?\*\)', '', open(p).read(), flags=re.S)
+                depth = 0
                 for i, ln in enumerate(txt.splitlines(), 1):
                     if FORBIDDEN.search(ln):
                         bad.append('%s:%d: %s' % (os.path.relpath(p, COQ), i, ln.strip()[:80]))
+                    # a Variable / Hypothesis / Context outside a Section declares an axiom
+                    if re.match(r'\s*(Section|Module)\s+\w+', ln) and ':=' not in ln:
+                        depth += 1
+                    elif re.match(r'\s*End\s+\w+\s*\.', ln) and depth > 0:
+                        depth -= 1
+                    elif re.match(r'\s*(Variables?|Hypothes[ie]s|Context)\b', ln) and depth == 0:
+                        bad.append('%s:%d: %s (outside a Section)'
+                                   % (os.path.relpath(p, COQ), i, ln.strip()[:60]))
     return bad
 
 
